@@ -592,7 +592,7 @@ DERIVATION_WRAPPERS = [
     'std::clone::Clone::clone', 'std::convert::Into::into', 'std::convert::From::from',
     'std::convert::AsRef::as_ref',
     'yarel::memory::Gc::<T>::as_root', 'yarel::memory::Root::<T>::as_gc',
-    'yarel::memory::Gc::<T>::as_ptr',
+    'yarel::memory::Gc::<T>::as_ptr', 'std::cell::RefCell::<T>::as_ptr',
     'std::iter::IntoIterator::into_iter', 'std::iter::Iterator::next',
     'core::slice::<impl [T]>::iter', 'std::collections::HashMap::<K, V, S>::values',
     'std::collections::HashMap::<K, V, S>::keys', 'std::collections::HashMap::<K, V, S>::iter',
